@@ -9,6 +9,7 @@
 package main
 
 import (
+	"io"
 	"bytes"
 	"errors"
 	"fmt"
@@ -601,6 +602,16 @@ func checkDecodeErrors(r *ev.Run, fieldNums []int) (n int64) {
 					case c.want != nil && !errors.Is(err, c.want):
 						dt.Msg = fmt.Sprintf("returned %q, expected errors.Is(%q)", err, c.want)
 						r.Fail("DecodeNested/"+sigName(c.name)+"/error-replaced", id, dt)
+					case c.want == nil:
+						// a natural failure of a real message: whatever well-known sentinel the message's own entry point
+						// reports for exactly these bytes is still found in what DecodeNested returns
+						direct, _ := safeUnmarshal(append([]byte{}, c.payload...), c.mk())
+						for _, sn := range []error{io.ErrUnexpectedEOF, io.EOF, csproto.ErrValueOverflow, csproto.ErrInvalidVarintData, csproto.ErrInvalidFieldTag} {
+							if direct != nil && errors.Is(direct, sn) && !errors.Is(err, sn) {
+								dt.Msg = fmt.Sprintf("csproto.Unmarshal of the nested bytes fails with %q (errors.Is %v); DecodeNested returned %q, which is not", direct, sn, err)
+								r.Fail("DecodeNested/"+sigName(c.name)+"/error-replaced", id, dt)
+							}
+						}
 					}
 				}
 			}
